@@ -366,6 +366,34 @@ theorem sealShape_disk (c : Cfg) (st : St) (h : SealShape c st) : Disk c st.fs :
   · exact .inr (.inr (.inr (.inr (.inl h))))
   · exact .inr (.inr (.inr (.inr (.inr h))))
 
+/-- a state inside a seal that a restart replays as an active fraction is again a start state of sealing -/
+theorem sealShape_active_start (c : Cfg) (st : St) (h : SealShape c st) (ha : classify st.fs = .active) :
+    Start c st.fs := by
+  obtain ⟨hd, hs⟩ := h
+  obtain ⟨d1, d2, d3⟩ := not_del hd
+  rcases hs with ⟨h1, h2, h3, h4⟩ | hS
+  · exact ⟨h1, h2, h3, d1, d2, d3, fun hsk => (h4 hsk).1⟩
+  · obtain ⟨fs, u⟩ := st
+    obtain ⟨docs, docsDel, sdocs, sdocsTmp, sdocsDel, index, indexTmp, indexDel, metaF⟩ := fs
+    obtain ⟨skip, keep⟩ := c
+    simp only at d1 d2 d3 ha
+    subst d1 d2 d3
+    obtain ⟨h1, h2⟩ := hS
+    simp only at h1 h2
+    subst h1
+    rcases h2 with ⟨h2, h3, h4⟩ | ⟨h2, h3, h4⟩
+    · subst h2
+      rcases h3 with h3 | h3 <;> rcases h4 with h4 | h4 <;> subst h3 h4 <;>
+        simp [classify, classifyInfo, makeInfo, Info.known, Content.has] at ha
+    · subst h2 h3
+      rcases h4 with h4 | ⟨h4, h5⟩
+      · subst h4; simp [classify, classifyInfo, makeInfo, Info.known, Content.has] at ha
+      · -- .docs + .meta + .index with SkipSortDocs: replayed as active, and a start state of sealing
+        subst h4
+        have h5' : skip = true := h5
+        subst h5'
+        simp [Start]
+
 /-- one procedure from an invariant state: every prefix has a known shape, the end state satisfies the invariant -/
 theorem proc_inv (c : Cfg) (f : Facts) (hf : f.all = true) (r : Role) (fs : FileSet) (hI : Inv c r fs)
     (proc : Proc) (hen : proc.enabled r fs) :
